@@ -293,7 +293,9 @@ pub fn check_from_iter(list: &[(u32, u32)], o: &mut Outcome) {
 
 pub fn run(tape: &[u8], cx: &Cx) -> Outcome {
     let mut t = Tape::new(tape);
-    let ivs = gen_partition(&mut t, 8);
+    // mostly 0-8 intervals; a sixth of the cases up to 70 (search strategies change with the size)
+    let max_n = if t.bool_p(42) { 70 } else { 8 };
+    let ivs = gen_partition(&mut t, max_n);
     let nq = 1 + t.choose(6);
     let queries: Vec<(u32, u32)> = (0..nq).map(|_| gen_query(&mut t, &ivs)).collect();
     // an arbitrary (possibly overlapping, shuffled) list for try_from_iter
@@ -312,10 +314,22 @@ pub fn run(tape: &[u8], cx: &Cx) -> Outcome {
     if cx.render {
         o.render = format!("partition {} queries {} list {}", show_part(&ivs), queries.iter().map(|&q| show_iv(q)).collect::<Vec<_>>().join(" "), show_part(&list));
     }
+    // probe characters: both ends of every interval and query, their neighbours, a middle point
     let mut all = ivs.clone();
     all.extend(&queries);
-    let u = Universe::from_intervals(&all);
-    let chars = u.probe_chars();
+    let mut cs: std::collections::BTreeSet<u32> = [0u32, MAX].into_iter().collect();
+    for &(a, b) in &all {
+        for c in [a, b, a + (b - a) / 2] {
+            cs.insert(c);
+            if c > 0 {
+                cs.insert(c - 1);
+            }
+            if c < MAX {
+                cs.insert(c + 1);
+            }
+        }
+    }
+    let chars: Vec<u32> = cs.into_iter().collect();
     let p = build_push(&ivs);
     check_partition(&ivs, &p, &chars, &mut o);
     if ivs.len() == 1 {
@@ -347,6 +361,9 @@ pub fn run(tape: &[u8], cx: &Cx) -> Outcome {
     }
     if ivs.windows(2).any(|w| w[0].1 + 1 == w[1].0) {
         o.tag("adjacent-intervals");
+    }
+    if ivs.len() >= 17 {
+        o.tag(">=17-intervals");
     }
     o
 }
